@@ -11,6 +11,16 @@ CHECKS = {
          "BFS over registration/subscription histories (depth 2, thorough 3) after a connect; in every reached state all 2304 PUBLISH flag/type/id/msgid/payload variants plus payload sizes across the header-form boundary and MaxPayloadLength are sent; the MQTT byte stream is parsed independently and compared with the reference (exactly one PUBLISH with same payload/retain/DUP/QoS/msg id and the denoted topic; none when the id denotes nothing).",
          "Default schedule; ids in flight between the two sides' views (REGISTER/SUBSCRIBE not yet acknowledged) accept both outcomes.",
          "3 C01"),
+ "C03": ("model_checking",
+         "explicit-state BFS over control-packet histories of the real handler + stateless schedule exploration against a broker/client that answers at once",
+         "BFS (depth 3, thorough 4) over SUBSCRIBE/UNSUBSCRIBE (all topic forms, QoS 0-2, msg ids 1-2), PUBREL, PINGREQ, DISCONNECT and broker SUBACK (rc 0,1,2,0x80), PUBREC, PUBCOMP, UNSUBACK, PINGRESP: per event exactly one translated packet with the same msg id, resolved filter and requested QoS; SUBACK accepted iff rc<=2 with the granted QoS and the assigned topic id. Plus E2 scenarios in which the broker's answer (and a client reusing the acknowledged msg id) becomes available the moment the request is written, explored over all interleavings within the preemption bound.",
+         "BFS part: default schedule, no time passes. E2 part: preemption bound 2 (thorough up to unbounded).",
+         "3 C03"),
+ "C04": ("model_checking",
+         "explicit-state BFS to a fixpoint over all orders of the three topic-id allocation paths on a handler with a 4-id space, plus one full-range history on the unmodified handler",
+         "For 5 predefined-id configurations of the id range 1..4 (single, adjacent, client-specific and * entries, all ids predefined): BFS to a fixpoint over REGISTER / SUBSCRIBE / broker-PUBLISH-triggered REGISTER events through and beyond exhaustion with the monitor id->name forever (in range, not predefined for the client, never a second name, refused when exhausted); plus one history of 65 537 allocations on the unmodified newHandler (real constants 1..0xFFFE).",
+         "Default schedule; the small id range is installed through an overlay-only export; the full range is exercised by one history only.",
+         "3 C04"),
  "C05": ("exploration",
          "exhaustive enumeration of all small predefined-topic maps against a precedence reference",
          "All 4096 maps {c1,*} x id{1,2,3} -> {absent,\"\",x,y} (empty tables both missing and present) and the repository's own topics.yaml, for client ids {c1,c2,*}, all ids 0..4 and all names: GetTopicName equals the reference precedence; every id GetTopicID returns reads back as the same name; an id is found whenever one resolves to the name.",
